@@ -31,7 +31,7 @@ def BOUNDS(tier):
 
 
 def REQUIRED_COVER(tier):
-    return {'width:1', 'width:4', 'width:1023', 'order:all-permutations', 'keyform:address', 'keyform:hashed', 'empty', 'badkey', 'value:cell', 'entry:preload_dict'}
+    return {'width:1', 'width:4', 'width:1023', 'order:all-permutations', 'keyform:address', 'keyform:hashed', 'empty', 'badkey', 'value:cell', 'entry:preload_dict', 'values:two-valued-all'}
 
 
 def val_for(k, kind, seed=0):
@@ -45,13 +45,25 @@ def val_for(k, kind, seed=0):
     if kind == 'coins':
         v = (k * k * 1000003 + 1) % (1 << 70) if k % 3 else 0
         return v, RBITS.coins(v), ()
+    # value FUNCTIONS that are not injective: equal values under different keys make equal sub-tries (one shared cell in a bag)
+    if kind == 'const':
+        return 5, RBITS.uint(5, 16), ()
+    if kind == 'low1':
+        v = 40000 + (k & 1)
+        return v, RBITS.uint(v, 16), ()
+    if kind == 'low2':
+        v = 7 + (k & 3)
+        return v, RBITS.uint(v, 16), ()
+    if kind.startswith('two:'):          # 'two:<mask>': value A or B chosen per key by the mask - all of them = every map into a 2-value alphabet
+        v = 0xA000 + (int(kind[4:]) >> (k % 64) & 1)
+        return v, RBITS.uint(v, 16), ()
     raise ValueError(kind)
 
 
 def make_map(width, keys, kind):
     from pytoniq_core.boc import HashMap
     hm = HashMap(width)
-    if kind == 'uint':
+    if kind in ('uint', 'const', 'low1', 'low2') or kind.startswith('two:'):
         hm.with_uint_values(16)
     elif kind == 'int':
         hm.with_int_values(13)
@@ -60,11 +72,16 @@ def make_map(width, keys, kind):
     return hm
 
 
-DESER = {
+class _Deser(dict):
+    def __missing__(self, kind):
+        return self['uint']
+
+
+DESER = _Deser({
     'uint': lambda s: s.load_uint(16),
     'int': lambda s: s.load_int(13),
     'coins': lambda s: s.load_coins(),
-}
+})
 
 
 def case_map(rec, width, keys, kind, check_entries=True):
@@ -210,12 +227,14 @@ def _rc(libcell):
     return RC.RCell(libcell.bits.to01(), tuple(_rc(r) for r in libcell.refs), libcell.type_ != -1)
 
 
-def shard_small(rec, width):
+def shard_small(rec, width, part=0, parts=1):
     """every non-empty key set; every insertion order for |S| <= 4"""
     universe = list(range(1 << width))
     kinds = ['uint', 'int', 'coins']
     n = 0
     for mask in range(1, 1 << len(universe)):
+        if mask % parts != part:
+            continue
         keys = [k for k in universe if mask >> k & 1]
         kind = kinds[mask % 3]
         if len(keys) <= 4:
@@ -226,8 +245,13 @@ def shard_small(rec, width):
             case_map(rec, width, keys, kind)
             case_map(rec, width, keys[::-1], kind, check_entries=False)
             case_map(rec, width, keys[3:] + keys[:3], kind, check_entries=False)
+        # every map from this key set into a two-value alphabet (equal values under different keys: equal sub-tries)
+        for vm in range(1 << len(keys)):
+            spread = sum(1 << k for j, k in enumerate(keys) if vm >> j & 1)
+            case_map(rec, width, keys, f'two:{spread}', check_entries=(vm % 4 == 0))
+            rec.covered('values:two-valued-all')
         n += 1
-    rec.sample({'width': width, 'key_sets': n, 'insertion_orders': 'all permutations for <= 4 keys'})
+    rec.sample({'width': width, 'key_sets': n, 'insertion_orders': 'all permutations for <= 4 keys', 'values': 'injective per kind + every assignment of two values to the keys'})
 
 
 def shard_w4(rec, part, parts, full):
@@ -242,6 +266,7 @@ def shard_w4(rec, part, parts, full):
         kind = kinds[mask % 3]
         case_map(rec, 4, keys, kind, check_entries=(size <= 2 or mask % 64 == 5))
         case_map(rec, 4, keys[::-1], kind, check_entries=False)
+        case_map(rec, 4, keys, ('const', 'low1', 'low2')[(mask // 3) % 3], check_entries=(mask % 64 == 5))
     rec.sample({'width': 4, 'keys': [0, 5, 15], 'orders': ['ascending', 'descending']})
 
 
@@ -259,6 +284,7 @@ def shard_wn(rec, width, maxsize, part, parts):
             case_map(rec, width, list(keys), kinds[i % 3], check_entries=(i % 50 == 0))
             if size >= 2:
                 case_map(rec, width, list(keys)[::-1], kinds[i % 3], check_entries=False)
+                case_map(rec, width, list(keys), ('const', 'low1', 'low2')[(i // 3) % 3], check_entries=False)
             if size <= 2 and width <= 6:
                 comp = [k for k in range(n) if k not in keys]
                 case_map(rec, width, comp, kinds[i % 3], check_entries=False)
@@ -282,7 +308,7 @@ def wide_key_sets(w, seed):
 
 def shard_wide(rec, width):
     for si, keys in enumerate(wide_key_sets(width, rec.seed)):
-        for kind in ('uint', 'coins'):
+        for kind in ('uint', 'coins', 'const', 'low1'):
             case_map(rec, width, keys, kind)
             case_map(rec, width, keys[::-1], kind, check_entries=False)
     rec.sample({'width': width, 'pattern': 'keys differing first at bit 0 / middle / last; dense prefixes'})
@@ -540,7 +566,8 @@ def case_deep(rec, width):
 
 
 def shards(tier, seed):
-    out = [{'fn': 'shard_small', 'args': {'width': w}} for w in (1, 2, 3)]
+    out = [{'fn': 'shard_small', 'args': {'width': w}} for w in (1, 2)]
+    out += [{'fn': 'shard_small', 'args': {'width': 3, 'part': p, 'parts': 8}, 'prio': 3} for p in range(8)]
     out.append({'fn': 'shard_deep', 'args': {}, 'prio': 2})
     parts = 13
     for p in range(parts):
